@@ -584,7 +584,20 @@ fn histories_format(cli: &Path, work: &Path, rep: &mut Report) {
         return;
     }
     let formatted = own;
-    let ops = ["write", "writef", "check", "checkf", "delete", "crlf", "addnl"];
+    // ENVIRONMENT: `--format` started where no `rustfmt` can be found, or where `rustfmt` fails. The
+    // invocation may fail - but it must never SUCCEED with anything but the formatted output, and a
+    // failing invocation leaves the file as it was
+    let no_fmt_dir = work.join("path_without_rustfmt");
+    let bad_fmt_dir = work.join("path_with_failing_rustfmt");
+    std::fs::create_dir_all(&no_fmt_dir).unwrap();
+    std::fs::create_dir_all(&bad_fmt_dir).unwrap();
+    {
+        use std::os::unix::fs::PermissionsExt;
+        let f = bad_fmt_dir.join("rustfmt");
+        std::fs::write(&f, "#!/bin/sh\ncat > /dev/null\nexit 1\n").unwrap();
+        std::fs::set_permissions(&f, std::fs::Permissions::from_mode(0o755)).unwrap();
+    }
+    let ops = ["write", "writef", "check", "checkf", "delete", "crlf", "addnl", "writef-no-rustfmt", "checkf-no-rustfmt", "writef-failing-rustfmt", "checkf-failing-rustfmt"];
     let mut all: Vec<Vec<&str>> = vec![];
     let mut q: VecDeque<Vec<&str>> = VecDeque::new();
     q.push_back(vec![]);
@@ -609,11 +622,16 @@ fn histories_format(cli: &Path, work: &Path, rep: &mut Report) {
             for (k, step) in h.iter().enumerate() {
                 let before = std::fs::read(&out).ok();
                 let before_text = before.as_ref().map(|b| String::from_utf8_lossy(b).to_string());
+                let mut env_path: Option<&Path> = None;
                 let (is_write, fmt) = match *step {
                     "write" => (true, false),
                     "writef" => (true, true),
                     "check" => (false, false),
                     "checkf" => (false, true),
+                    "writef-no-rustfmt" | "checkf-no-rustfmt" | "writef-failing-rustfmt" | "checkf-failing-rustfmt" => {
+                        env_path = Some(if step.ends_with("no-rustfmt") { &no_fmt_dir } else { &bad_fmt_dir });
+                        (step.starts_with("write"), true)
+                    }
                     "crlf" => {
                         if let Some(t) = &before_text {
                             std::fs::write(&out, t.replace("\r\n", "\n").replace('\n', "\r\n")).unwrap();
@@ -639,9 +657,22 @@ fn histories_format(cli: &Path, work: &Path, rep: &mut Report) {
                 if !is_write {
                     args.push("--check");
                 }
-                let (code, _, err) = run_cli(cli, &args);
+                let (code, _, err) = match env_path {
+                    None => run_cli(cli, &args),
+                    Some(dir) => {
+                        let o = Command::new(cli).args(&args).env("PATH", dir).output().expect("run logos-cli");
+                        (o.status.code().unwrap_or(-1), String::new(), String::from_utf8_lossy(&o.stderr).to_string())
+                    }
+                };
                 let after = std::fs::read(&out).ok();
                 let up_to_date = before_text.as_ref().map_or(false, |t| t.lines().eq(want.lines()));
+                if env_path.is_some() && code != 0 {
+                    // the formatter is not available: failing is fine, touching the file is not
+                    if after != before {
+                        bad = Some(format!("step {k} {step}: the invocation failed (exit {code}) but changed the file"));
+                    }
+                    continue;
+                }
                 if is_write {
                     let text = String::from_utf8_lossy(after.as_deref().unwrap_or(b"")).to_string();
                     if code != 0 || !text.lines().eq(want.lines()) {
